@@ -415,17 +415,28 @@ def c_id(c):
 def r6(run, db):
     d = fs(db, "dispatch")
     run.saw(len(d.blocks), d)
-    eqs = [c for c in d.calls() if c.matches(r"PartialEq>::eq$|PartialEq::eq$") and "DrainState" in (c.self_ty or "")]
+    eqs = [t_ for t_ in enum_const_tests(d, "DrainState") if t_["variant"] == "NotDraining"]
     run.check(len(eqs) == 1, "dispatch|drain-test", "dispatch tests the drain state", "dispatch has %d drain-state tests" % len(eqs), d.where())
     if eqs:
-        consts = [d.value_consts(a) for a in eqs[0].args]
-        isnd = any(v and v[0].endswith("NotDraining") for v in consts)
-        te, fe = true_edge(d, eqs[0]), false_edge(d, eqs[0])
+        te, fe = eqs[0]["eq_edge"], eqs[0]["ne_edge"]
         rt = [c for c in d.calls() if c.matches(r"Router::route_message$")]
-        run.check(isnd and te and rt and d.edge_dominates(te, rt[0].site), "dispatch|route-only-if-not-draining", "jobs are routed only while NotDraining", "routing not restricted to NotDraining", d.where())
-        dc = [c for c in d.calls() if re.search(c13.DISCARD, c.callee or "") and fe and d.edge_dominates(fe, c.site)]
-        rj = [c for c in d.calls() if c.matches(r"job::Job::<TKey, TMsg>::reject$") and fe and d.edge_dominates(fe, c.site)]
-        reason = d.value_consts(dc[0].args[1])[0].split("::")[-1] if dc and d.value_consts(dc[0].args[1]) else None
+        run.check(bool(te and rt and d.edge_dominates(te, rt[0].site)), "dispatch|route-only-if-not-draining", "jobs are routed only while NotDraining", "routing not restricted to NotDraining", d.where())
+        dc = [c for o, c, ch in inlined_calls(db, d) if re.search(c13.DISCARD, c.callee or "") and fe and d.edge_dominates(fe, o)]
+        rj = [c for o, c, ch in inlined_calls(db, d) if c.matches(r"job::Job::<TKey, TMsg>::reject$") and fe and d.edge_dominates(fe, o)]
+        reason = None
+        for o, c, ch in inlined_calls(db, d):
+            if re.search(c13.DISCARD, c.callee or "") and fe and d.edge_dominates(fe, o):
+                v = c.fn.value_consts(c.args[1])
+                if v:
+                    reason = v[0].split("::")[-1]
+                elif ch:
+                    # the reason is a parameter of the helper that discards: take it from the helper call in dispatch
+                    for x in d.calls():
+                        if x.site == o:
+                            for a in x.args:
+                                vv = d.value_consts(a)
+                                if vv and "DiscardReason" in vv[0]:
+                                    reason = vv[0].split("::")[-1]
         run.check(len(dc) == 1 and len(rj) == 1 and reason == "Shutdown", "dispatch|draining->shutdown+reject", "a job arriving while draining is discarded with Shutdown and rejected", "draining arm: %d discards (%s), %d rejects" % (len(dc), reason, len(rj)), d.where())
     rz = [f for f in db.crate_fns("ractor") if re.search(r"FactoryState::<.*>::resize_pool::\{closure#0\}$", f.id)]
     run.anchor("resize_pool", len(rz), 1)
